@@ -29,7 +29,7 @@ CHECKS = {
         dict(prop="REG", harness="api_pbt", quick=dict(count=0, workers=1), thorough=dict(count=0, workers=1)),  # regression scenarios
         dict(prop="C06", harness="api_pbt", quick=dict(count=1600, workers=8), thorough=dict(count=60000, workers=16),
              essential=_ALL_SCHEMAS + ["1.x:set_" + x for x in _SETTERS] + ["2.x:set_" + x for x in _SETTERS] +
-                       ["slot-index=%d" % i for i in range(8)] + ["shared-storage pair", "setter-rejected"])]),
+                       ["slot-index=%d" % i for i in range(8)] + ["shared-storage pair", "setter-rejected", "setter-via-second-handle"])]),
     "C07": dict(level="exploration", parts=[
         dict(prop="REG", harness="api_pbt", quick=dict(count=0, workers=1), thorough=dict(count=0, workers=1)),  # regression scenarios
         dict(prop="C07", harness="api_pbt", quick=dict(count=6000, workers=8), thorough=dict(count=200000, workers=16),
@@ -207,7 +207,8 @@ RULES = {
            "write threw, the number of tracks / the previously stored snapshot are unchanged. Non-trivial = write accepted and the snapshot has "
            ">=1 populated cue, loop, grid marker or waveform entry; distinct = distinct (schema, mode, snapshot) renderings.",
     "C06": "Case = schema, 1..3 tracks created from generated snapshots, then up to 12 (quick) setter calls [track, one of the 26 setters incl. "
-           "set_hot_cue_at/set_loop_at at each index 0..7, generated in-domain value]. Model-based: after every step, for every track, each "
+           "set_hot_cue_at/set_loop_at at each index 0..7, generated in-domain value], each call made through the handle create_track returned or, one time in three, "
+           "through a second handle to the same track obtained by a separate track_by_id lookup and kept for the whole history. Model-based: after every step, for every track, each "
            "getter equals the model (expected read-back of the value last set), each getter equals the corresponding snapshot() field, "
            "filename()/file_extension() are derived from the path, and a setter that threw changed nothing. Non-trivial = two consecutive "
            "successful setters on one track hit the same storage (same blob / row / metadata table) or >=2 tracks were modified.",
